@@ -21,7 +21,7 @@ ASSUMPTIONS = ['TonVm is a transcription of vm_stack / VmStackValue / VmTuple / 
 
 
 def model_checks(tier):
-    return [dict(name='tlb_tags', module='MC_Tlb.tla', workers=2, cfg='INIT Init\nNEXT Next\nCONSTANTS Types = {"TickTock"}\n Emit = FALSE\n'
+    return [dict(name='tlb_tags', module='MC_Tlb.tla', workers=2, cfg='INIT Init\nNEXT Next\nCONSTANTS Types = {"TickTock"}\n Emit = FALSE\n Pairs = FALSE\n'
                  'INVARIANT Count\nCHECK_DEADLOCK FALSE\n')]
 
 
